@@ -33,6 +33,7 @@ void vterm_automate_newdata(struct vterm_automate *vterm, int16_t input_c)
     char c = 0;
     int ret;
     int return_flag = 0;
+    unsigned int cursor_before = 0;
 
     while (return_flag == 0)
     {
@@ -78,6 +79,9 @@ void vterm_automate_newdata(struct vterm_automate *vterm, int16_t input_c)
                 break;
             }
 
+            // the terminal cursor stands where the edit cursor stood before
+            // the key was handled
+            cursor_before = vterm->rl.line.cursor;
             ret = readline_putchar(&vterm->rl, c);
 
             switch (ret)
@@ -161,14 +165,22 @@ void vterm_automate_newdata(struct vterm_automate *vterm, int16_t input_c)
             {
                 char buf[16];
 
+                // back to the start of the replaced line: that is as far as
+                // the cursor was from it, not the length of the line
+                if (cursor_before)
+                {
+                    if (vterm->echo)
+                    {
+                        ret = vt100_left(buf, (int)cursor_before);
+
+                        vterm->write_callback(vterm->write_privdata, buf, ret);
+                    }
+                }
+
                 if (vterm->rl.lastsize)
                 {
                     if (vterm->echo)
                     {
-                        ret = vt100_left(buf, vterm->rl.lastsize);
-
-                        vterm->write_callback(vterm->write_privdata, buf, ret);
-
                         vterm->write_callback(vterm->write_privdata,
                                               VT100_ERASE_LINE_AFTER_CURSOR,
                                               3);
